@@ -36,6 +36,16 @@ const (
 	c06Rlimit  = 4 << 30
 )
 
+// Inputs of up to c06SpareMax bytes are measured twice: as an exact-size
+// slice and as the first n bytes of a c06SpareCap-byte buffer (family name +
+// c06SpareSuffix), the way a caller that reads into a pooled buffer hands a
+// token over. The bound is in terms of the input LENGTH either way.
+const (
+	c06SpareSuffix = "+spare-capacity"
+	c06SpareCap    = 4 << 20
+	c06SpareMax    = 4096
+)
+
 func c06Bound(n int) uint64 { return c06Fixed + c06PerByte*uint64(n) }
 
 // ---- worker side ----
@@ -62,14 +72,20 @@ func c06Worker() int {
 	out := bufio.NewWriter(os.Stdout)
 	var m0, m1 runtime.MemStats
 	hdr := make([]byte, 7)
+	spareBuf := make([]byte, c06SpareCap)
 	for {
 		if _, err := io.ReadFull(in, hdr); err != nil {
 			return 0
 		}
-		fam := c06Families[int(hdr[0])%len(c06Families)]
+		fam := c06Families[int(hdr[0]&0x7f)%len(c06Families)]
 		ei := int(binary.BigEndian.Uint16(hdr[1:3]))
 		n := int(binary.BigEndian.Uint32(hdr[3:7]))
 		data := make([]byte, n)
+		if hdr[0]&0x80 != 0 && n <= len(spareBuf) {
+			// the input as a caller with a read buffer hands it over: the
+			// first n bytes of a much larger slice (len n, cap 4 MiB)
+			data = spareBuf[:n]
+		}
 		if _, err := io.ReadFull(in, data); err != nil {
 			return 0
 		}
@@ -174,7 +190,10 @@ func famIndex(f string) int {
 // measure sends one input; entry < 0 = all entry points of the family.
 func (p *c06Proc) measure(fam string, entry int, data []byte) c06Res {
 	hdr := make([]byte, 7)
-	hdr[0] = byte(famIndex(fam))
+	hdr[0] = byte(famIndex(strings.TrimSuffix(fam, c06SpareSuffix)))
+	if strings.HasSuffix(fam, c06SpareSuffix) {
+		hdr[0] |= 0x80
+	}
 	if entry < 0 {
 		binary.BigEndian.PutUint16(hdr[1:3], 0xffff)
 	} else {
@@ -298,7 +317,7 @@ func (pl *c06Pool) judge(fam string, data []byte) (violation string, entry strin
 	before := append([]c06Step{}, pl.recent...)
 	res = p.measure(fam, -1, data)
 	pl.remember(fam, data)
-	eps := entriesOf(fam)
+	eps := entriesOf(strings.TrimSuffix(fam, c06SpareSuffix))
 	if !res.Died && res.Alloc <= c06Bound(len(data)) && res.Wall <= c06MaxWall {
 		return "", "", "", res
 	}
@@ -985,6 +1004,20 @@ func c06RunOne(t interface{ Fatalf(string, ...any) }, st *Stats, pl *c06Pool, fa
 	}
 	if v != "" {
 		return v, c06In{Family: fam, Entry: entry, Data: data, Desc: desc}
+	}
+	if len(data) <= c06SpareMax {
+		v, entry, infra, _ := pl.judge(fam+c06SpareSuffix, data)
+		if infra != "" {
+			fmt.Printf("VERIF-INFRA: C06 %s\n", infra)
+			t.Fatalf("VERIF-INFRA: %s", infra)
+		}
+		st.Class("spare-capacity-slice")
+		st.mu.Lock()
+		st.Evals += int64(len(entriesOf(fam)))
+		st.mu.Unlock()
+		if v != "" {
+			return v, c06In{Family: fam + c06SpareSuffix, Entry: entry, Data: data, Desc: desc + fmt.Sprintf(" [input handed over as buf[:%d] of a %d-byte buffer]", len(data), c06SpareCap)}
+		}
 	}
 	return "", in
 }
